@@ -90,6 +90,15 @@ def tree_of(snap):
     return top
 
 
+def expected_streams(cmd):
+    """What the scripted command writes to stdout / stderr, as a text-mode reader sees it (CR LF and CR read as LF)."""
+    out = "".join(o[5:] + "\n" if o.startswith("echo:") else "%s  50%%\n%s 100%%\n" % (o[9:], o[9:])
+                  for o in cmd if o.startswith(("echo:", "progress:")))
+    err = "".join("err:" + o[5:] + "\n" if o.startswith("echo:") else "%s...\n" % o[9:]
+                  for o in cmd if o.startswith(("echo:", "progress:")))
+    return out, err
+
+
 def model_run(h, st):
     """The Lean `inTotoRun` on the two snapshots with the history's recording options."""
     import in_toto.settings as ist
@@ -98,8 +107,7 @@ def model_run(h, st):
     before, after = tree_of(st["before"]), tree_of(st["after"])
     patterns = list(opts["exclude"][0]) if opts["exclude"] else list(ist.ARTIFACT_EXCLUDE_PATTERNS)
     cands = sorted(set(T.candidate_paths(before, ["."])) | set(T.candidate_paths(after, ["."])))
-    out = "".join(o[5:] + "\n" for o in st["cmd"] if o.startswith("echo:"))
-    err = "".join("err:" + o[5:] + "\n" for o in st["cmd"] if o.startswith("echo:"))
+    out, err = expected_streams(st["cmd"])
     req = {"op": "in_toto_run", "before": T.model_node(before, before), "after": T.model_node(after, after), "name": st["name"],
            "material_list": ["."], "product_list": ["."], "command": list(st["cmd"]),
            "run": {"return-value": 0, "stdout": out, "stderr": err} if st["cmd"] else None,
@@ -160,8 +168,9 @@ def judge_links(h, res, desc):
                 why = "command line not recorded"
             elif pl.byproducts.get("return-value") != 0:
                 why = "exit status not recorded"
-            elif st["streams"] and any(o.startswith("echo:") for o in st["cmd"]) and "hello" not in pl.byproducts.get("stdout", ""):
-                why = "stdout not recorded although requested"
+            elif st["streams"] and (pl.byproducts.get("stdout"), pl.byproducts.get("stderr")) != expected_streams(st["cmd"]):
+                why = "the recorded output is not what the command wrote (stdout %r, stderr %r; expected %r)" % (
+                    pl.byproducts.get("stdout"), pl.byproducts.get("stderr"), expected_streams(st["cmd"]))
             elif not st["streams"] and (pl.byproducts.get("stdout") or pl.byproducts.get("stderr")):
                 why = "streams recorded although not requested"
             elif st["returned"] is not None and W.canon(attr.asdict(st["returned"].get_payload())) != W.canon(attr.asdict(pl)):
